@@ -1,6 +1,8 @@
 #![allow(dead_code)]
 mod alphabet;
 mod checks;
+mod ecrash;
+mod efault;
 mod ehttp;
 mod epayload;
 mod eseq;
@@ -10,6 +12,7 @@ mod model;
 mod pool;
 mod report;
 mod sut;
+mod vfs;
 mod wrap;
 
 fn main() {
